@@ -17,6 +17,17 @@ if only:
 for e in todo:
     prop = e["props"][0]
     saved = e.get("expect")
+    if e.get("benign"):
+        # a benign edit must be silent under every listed property
+        e["expect"] = None
+        json.dump(cat, open(st.CATALOGUE, "w"), indent=1)
+        bad = []
+        for pr in e["props"]:
+            r = st.run(pr, 0, checkmod.run_rules, only=[e["id"]])
+            if r["failed"] or r["stale"]:
+                bad.append((pr, (r["failed"] or r["stale"])[0]))
+        print(e["id"], "silent (benign) under", e["props"] if not bad else "OVER-EAGER/ERROR %s" % bad)
+        continue
     e["expect"] = "?"
     json.dump(cat, open(st.CATALOGUE, "w"), indent=1)
     r = st.run(prop, 0, checkmod.run_rules, only=[e["id"]])
